@@ -55,20 +55,28 @@ func VP_C06_receive_short() {
 //vp:property C06 C08
 //vp:set k 3 4
 //vp:set maxalloc 16 16
-//vp:bounds client->backend through the packet loop: with an open channel, K packets each DATA (payload of 0..2 symbolic bytes, length field exact) or KEEPALIVE (an 8-byte packet), one packet per read, then the client drops; the host must receive exactly the concatenation of the DATA payloads
+//vp:bounds client->backend through the packet loop: with an open channel, K packets each DATA (payload of 0..2 symbolic bytes, length field exact), KEEPALIVE (an 8-byte packet) or — once — a repeated CHANNEL_CREATE request, one packet per read, then the client drops; the host must receive exactly the concatenation of the DATA payloads
 //vp:reach relayed
 func VP_C06_stream() {
 	vpResetC01()
 	k := vpParam("k")
 	var want []byte
+	cut := -1 // index of a repeated CHANNEL_CREATE request, if the client sends one
 	tr := &vpTransport{ngen: k}
 	tr.gen = func(i int) []byte {
 		is := strconv.Itoa(i)
 		if vpBool("keepalive" + is) {
 			return vpPacket(0xD, []byte{})
 		}
+		if cut < 0 && vpBool("channel-create-again"+is) {
+			// out of order: the tunnel has its channel; the request must not be served
+			cut = i
+			return vpSetupPacket(3)
+		}
 		pl := vpBytes("payload"+is, 2)
-		want = append(want, pl...)
+		if cut < 0 {
+			want = append(want, pl...)
+		}
 		return vpPacket(0xA, append([]byte{byte(len(pl)), 0}, pl...))
 	}
 	rwc := &vpConn{block: true}
@@ -76,12 +84,17 @@ func VP_C06_stream() {
 	p := NewProcessor(&Gateway{}, tun)
 	p.state = SERVER_STATE_CHANNEL_CREATE
 	p.Process(vpCtx())
+	vpDropTasks()
 	var got []byte
 	for _, w := range rwc.written {
 		got = append(got, w...)
 	}
 	vpReach("relayed")
-	vpAssert(tr.pos == k, "every-packet-of-the-stream-is-processed")
+	if cut < 0 {
+		vpAssert(tr.pos == k, "every-packet-of-the-stream-is-processed")
+	} else {
+		vpAssert(tr.pos == cut+1 && len(vpDialLog) == 0, "a-repeated-channel-create-ends-the-tunnel-and-opens-no-second-host-connection")
+	}
 	vpAssert(len(got) == len(want), "host-receives-exactly-as-many-bytes-as-the-client-declared")
 	vpAssert(vpEqBytes(got, want), "host-stream-equals-the-concatenated-data-payloads")
 }
